@@ -1,5 +1,5 @@
 \* exhaustive small scope: 4 boundaries (3 unit intervals), <= 2 spans with 1 key each (seqnums 1..2,
-\* 2 suffixes), 2 levels; every operation, every truncation bound / fragmenter cut point
+\* 2 suffixes; fragmented inputs: keys over seqnums 1..2 x {UNSET, SET} x 2 suffixes x 2 values), 2 levels; every operation and DefragmentMethod, every truncation bound / fragmenter cut point
 SPECIFICATION Spec
 CONSTANTS
   NB = 4
@@ -7,7 +7,11 @@ CONSTANTS
   MaxSpans = 2
   MaxKeys = 1
   NLevels = 2
-  Ops = {"frag", "trunc", "merge", "defrag"}
+  Ops = {"frag", "trunc", "merge", "defrag", "mdefrag"}
+  DSeqs = {1, 2}
+  DKinds = {20, 21}
+  DVals = {1, 2}
+  DMethods = {"internal", "user"}
   BugMode = "none"
   Emit = FALSE
 INVARIANT Inv
